@@ -114,3 +114,75 @@ Theorem C03_slice_size_diff : forall s c k,
      <-> ccommit k + cdelta k < base s).
 Proof. exact Proofs.Buffer.slice_size_diff. Qed.
 Print Assumptions C03_slice_size_diff.
+
+(* ================================================================================================================
+   Extensions (proofs in Proofs/BufferMore.v): schedules in which ANY cleaner function may run, a different one at every
+   run ([Proofs.BufferMore.GShift f] = one run of cleanupLogic with f while the buffer is open; [Proofs.BufferMore.grun];
+   see Properties/C01.v, C01_schedules_are_a_special_case / C01_generalised_event), and the "consumers at or beyond the
+   trim point are unaffected" clause.
+   ================================================================================================================ *)
+From BB.Proofs Require BufferMore.
+
+(* the invariant of the buffer survives every such schedule *)
+Theorem C03_invariant_any_cleaners : forall gs s,
+  Proofs.Buffer.Inv s -> Proofs.Buffer.Inv (fst (Proofs.BufferMore.grun s gs)).
+Proof. exact Proofs.BufferMore.Inv_grun. Qed.
+Print Assumptions C03_invariant_any_cleaners.
+
+(* the base and every consumer's committed offset never decrease (eviction and Commit are permanent), and no consumer
+   record disappears *)
+Theorem C03_base_and_commits_monotone_any_cleaners : forall gs s,
+  Proofs.Buffer.Inv s ->
+  let s' := fst (Proofs.BufferMore.grun s gs) in
+  base s <= base s' /\
+  (forall c k, getc s c = Some k ->
+     exists k', getc s' c = Some k' /\ ccommit k <= ccommit k' /\ cstart k = cstart k' /\ chigh k <= chigh k').
+Proof. exact Proofs.BufferMore.sle_grun. Qed.
+Print Assumptions C03_base_and_commits_monotone_any_cleaners.
+
+(* a consumer whose next value has been evicted stays so, and every later Get of it is an error that changes nothing,
+   whatever cleaners run later *)
+Theorem C03_evicted_fails_forever_any_cleaners : forall gs s i,
+  Proofs.Buffer.Inv s -> Proofs.Buffer.lagging s i ->
+  let s' := fst (Proofs.BufferMore.grun s gs) in Proofs.Buffer.lagging s' i /\ step s' (OGet i) = (s', RErr).
+Proof. exact Proofs.BufferMore.evicted_fails_forever_g. Qed.
+Print Assumptions C03_evicted_fails_forever_any_cleaners.
+
+(* [lagging]: the consumer exists and its cursor is below the base *)
+Theorem C03_lagging_def : forall s c,
+  Proofs.Buffer.lagging s c <-> exists k, getc s c = Some k /\ ccommit k + cdelta k < base s.
+Proof. exact Proofs.BufferMore.lagging_def. Qed.
+Print Assumptions C03_lagging_def.
+
+(* One cleaner run with ANY function f, and a consumer whose cursor (committed offset + reads since) is at or beyond the
+   new base: its Get, Diff, Commit and Rollback return exactly what they would have returned without the trim; the trim
+   commutes with Get, Diff and Rollback (same final state in either order); after a Commit the two states have the same
+   log and the same consumers (the base is the trimmed one). *)
+Theorem C03_beyond_trim_unaffected : forall (f : Z -> list Z -> Z) s c k,
+  Proofs.Buffer.Inv s -> getc s c = Some k ->
+  let s' := clean_with f s in
+  base s' <= ccommit k + cdelta k ->
+  snd (step s' (OGet c)) = snd (step s (OGet c)) /\
+  snd (step s' (ODiff c)) = snd (step s (ODiff c)) /\
+  snd (step s' (OCommit c)) = snd (step s (OCommit c)) /\
+  snd (step s' (ORollback c)) = snd (step s (ORollback c)) /\
+  fst (step s' (OGet c)) = clean_with f (fst (step s (OGet c))) /\
+  fst (step s' (ODiff c)) = clean_with f (fst (step s (ODiff c))) /\
+  fst (step s' (ORollback c)) = clean_with f (fst (step s (ORollback c))) /\
+  (cs (fst (step s' (OCommit c))) = cs (fst (step s (OCommit c))) /\
+   log (fst (step s' (OCommit c))) = log (fst (step s (OCommit c))) /\
+   base (fst (step s' (OCommit c))) = base s').
+Proof. exact Proofs.BufferMore.beyond_trim_unaffected. Qed.
+Print Assumptions C03_beyond_trim_unaffected.
+
+(* Any sequence of Get/Diff/Commit/Rollback calls on a consumer whose COMMITTED offset is at or beyond the new base (so
+   that not even a Rollback takes its cursor below it): exactly the same results with and without the trim, and the same
+   consumers and log at the end. *)
+Theorem C03_beyond_trim_unaffected_calls : forall (f : Z -> list Z -> Z) s c k ops,
+  Proofs.Buffer.Inv s -> getc s c = Some k -> base (clean_with f s) <= ccommit k ->
+  Forall (fun o => o = OGet c \/ o = ODiff c \/ o = OCommit c \/ o = ORollback c) ops ->
+  snd (erun (clean_with f s) (map EOp ops)) = snd (erun s (map EOp ops)) /\
+  cs (fst (erun (clean_with f s) (map EOp ops))) = cs (fst (erun s (map EOp ops))) /\
+  log (fst (erun (clean_with f s) (map EOp ops))) = log (fst (erun s (map EOp ops))).
+Proof. exact Proofs.BufferMore.beyond_trim_unaffected_calls. Qed.
+Print Assumptions C03_beyond_trim_unaffected_calls.
